@@ -279,6 +279,19 @@ pub fn nats(v: &[usize]) -> String {
     v.iter().map(|x| x.to_string()).collect::<Vec<_>>().join(",")
 }
 
+/// clone() / clone_from(): `Clone` of the element type runs exactly once per element of the source ("holds
+/// independently owned clones of its elements", C11) — judged on the number of `Clone` calls the call made.
+pub fn clone_count_oracle(name: &str, ret: &str, cc_before: u64, src_len: usize) -> Option<String> {
+    if !matches!(name, "clone_to_other" | "clone_from") || ret.starts_with("panic") {
+        return None;
+    }
+    let made = tape::with(|t| t.cc) - cc_before;
+    if made != src_len as u64 {
+        return Some(format!("{} of a collection with {} elements called Clone {} times", name, src_len, made));
+    }
+    None
+}
+
 /// "In any state inserting up to capacity()-len() keys that are not yet present performs no allocation" (C08),
 /// judged on the public observables: a call that inserts ONE element (len grew by one) while the collection
 /// advertised spare room must leave `allocation_size()` as it was.
@@ -1217,6 +1230,12 @@ impl<K: KeyT, V: ValT> Runner for MapRunner<K, V> {
         (size, std::mem::align_of::<(K, V)>(), K::DROP, K::IDS)
     }
     fn op(&mut self, tgt: &str, name: &str, args: &[&str]) -> String {
+        let cc_before = tape::with(|t| t.cc);
+        let clone_src_len = match name {
+            "clone_to_other" => self.get(tgt).len(),
+            "clone_from" => self.get(if tgt == "a" { "b" } else { "a" }).len(),
+            _ => 0,
+        };
         let before = {
             let m = self.get(tgt);
             (m.verif_dump(), m.len(), m.capacity(), m.allocation_size())
@@ -1267,7 +1286,10 @@ impl<K: KeyT, V: ValT> Runner for MapRunner<K, V> {
             }
         }
         if let Some(why) = self.capacity_step(tgt, name, args, &clean, &before, &evs) {
-            ret.push_str(&format!(" ORACLE-CAP({})", why.replace(' ', "_")));
+            ret.push_str(&format!(" ORACLE-CAP({})", why.replace([' ', '(', ')'], "_")));
+        }
+        if let Some(why) = clone_count_oracle(name, &clean, cc_before, clone_src_len) {
+            ret.push_str(&format!(" ORACLE-REF({})", why.replace([' ', '(', ')'], "_")));
         }
         for why in tape::with(|t| std::mem::take(&mut t.alloc_errors)) {
             ret.push_str(&format!(" ORACLE-ALLOC({})", why.replace(' ', "_")));
